@@ -201,6 +201,30 @@ def fns(p, top_only=False):
     return out
 
 
+def cells_of(p, acc=None):
+    """table cells (template instantiations) the program uses, inner programs included"""
+    acc = set() if acc is None else acc
+    s = p["src"]
+    wk, tv = src_world(s)
+    if s[0] == "run":
+        acc.add(("run", s[1], s[3]["par"], s[3]["ret"]))
+        if s[3]["beh"][0] == "async":
+            cells_of(s[3]["beh"][1], acc)
+    for o in p["ops"]:
+        if o[0] == "then":
+            a = o[1]
+            att = "on" if isinstance(a, tuple) else a
+            acc.add(("then", wk, tv, o[2]["par"], o[2]["ret"], att))
+            if o[2]["beh"][0] == "async":
+                cells_of(o[2]["beh"][1], acc)
+            wk, tv = T.then_world(wk, att), T.ret_ty(o[2]["ret"])
+        elif o[0] == "tofuture":
+            wk = "F"
+        else:
+            wk = {"O": "F", "SO": "S"}[wk]
+    return acc
+
+
 def inner_task_heads(p):
     """source kinds at the head of every Task returned from a callback"""
     out = []
@@ -558,6 +582,12 @@ def build_harness(main_src, name, cfg="BC"):
         if r.returncode != 0:
             raise vlib.BuildError("pipeline table harness does not link:\n" + r.stdout[-4000:])
         os.rename(tmp, exe)
+        for f in os.listdir(b["build"]):
+            if f.startswith("h_%s_" % name) and os.path.join(b["build"], f) != exe and ".tmp" not in f:
+                try:
+                    os.remove(os.path.join(b["build"], f))
+                except OSError:
+                    pass
         # drop objects of older harness versions
         keep = set(objs)
         for f in os.listdir(gendir):
